@@ -24,6 +24,7 @@
 #undef private
 #undef protected
 #include <node/utxo_snapshot.h>
+#include <node/kernel_notifications.h>
 #include <kernel/coinstats.h>
 #include <univalue.h>
 #include <rpc/blockchain.h>
@@ -127,10 +128,100 @@ int main()
 {
     std::unique_ptr<Fixture> fx;
     return vd::main_loop([&](const std::vector<std::string>& w, const std::string&) -> std::string {
-        if (w.at(0) != "act") return "BADCASE";
+        if (w.at(0) != "act" && w.at(0) != "bg") return "BADCASE";
         if (!fx || fx->dirty) { fx.reset(); fx = std::make_unique<Fixture>(); }
         auto& node = fx->s->m_node;
         ChainstateManager& cm = *node.chainman;
+        if (w.at(0) == "bg") {
+            // bg <ready|again|behind> <none|add|del<i>|val<i>:<d>|hgt<i>:<d>|cb<i>>
+            //   a genuine activation, then the fully validated (IBD) chainstate - which stands at the snapshot base - is
+            //   tampered with and the real MaybeValidateSnapshot is called.
+            // output: bgres=<result> ready=<0|1> height=<h> table=.. set=<txid:n:height:cb:value:script;...>
+            fx->dirty = true;
+            node.notifications->m_shutdown_on_fatal_error = false;
+            Chainstate* ibd = &cm.ActiveChainstate();
+            {
+                AutoFile f0{fsbridge::fopen(fx->path, "rb")};
+                SnapshotMetadata md{cm.GetParams().MessageStart()};
+                f0 >> md;
+                CBlockIndex* tip = WITH_LOCK(cs_main, return ibd->m_chain.Tip());
+                ibd->m_chain.SetTip(*tip->pprev);
+                auto r0 = cm.ActivateSnapshot(f0, md, false);
+                ibd->m_chain.SetTip(*tip);
+                if (!r0) return "BADCASE activation failed";
+            }
+            Chainstate* snap = WITH_LOCK(cs_main, return &cm.ActiveChainstate());
+            const std::string scen = w.at(1), tam = w.at(2);
+            {
+                LOCK(cs_main);
+                CCoinsViewCache& cc = ibd->CoinsTip();
+                auto pick = [&](size_t i) { return COutPoint(fx->s->m_coinbase_txns.at(i % fx->s->m_coinbase_txns.size())->GetHash(), 0); };
+                if (tam == "add") {
+                    Coin c; c.out.nValue = 12345; c.nHeight = 7; c.fCoinBase = false; c.out.scriptPubKey = CScript() << OP_TRUE;
+                    uint256 h; std::fill(h.begin(), h.end(), 0x5a);
+                    cc.AddCoin(COutPoint(Txid::FromUint256(h), 3), std::move(c), false);
+                } else if (tam.rfind("del", 0) == 0) {
+                    cc.SpendCoin(pick(std::stoul(tam.substr(3))));
+                } else if (tam != "none") {
+                    size_t colon = tam.find(':');
+                    std::string kind = tam.substr(0, tam.find_first_of("0123456789"));
+                    size_t i = std::stoul(tam.substr(kind.size(), colon == std::string::npos ? std::string::npos : colon - kind.size()));
+                    long long d = colon == std::string::npos ? 0 : vd::ll(tam.substr(colon + 1));
+                    COutPoint op = pick(i);
+                    Coin c = cc.AccessCoin(op);
+                    cc.SpendCoin(op);
+                    if (kind == "val") c.out.nValue += d;
+                    else if (kind == "hgt") c.nHeight = (uint32_t)((long long)c.nHeight + d);
+                    else if (kind == "cb") c.fCoinBase = !c.fCoinBase;
+                    else return "BADCASE tamper";
+                    cc.AddCoin(op, std::move(c), true);
+                }
+            }
+            SnapshotCompletionResult res;
+            bool ready = true;
+            if (scen == "again") {
+                WITH_LOCK(cs_main, return cm.MaybeValidateSnapshot(*ibd, *snap));
+                ready = false;
+            }
+            CBlockIndex* saved_tip = nullptr;
+            if (scen == "behind") { LOCK(cs_main); saved_tip = ibd->m_chain.Tip(); ibd->m_chain.SetTip(*saved_tip->pprev); ready = false; }
+            res = WITH_LOCK(cs_main, return cm.MaybeValidateSnapshot(*ibd, *snap));
+            if (saved_tip) { LOCK(cs_main); ibd->m_chain.SetTip(*saved_tip); }
+            static const char* names[] = {"SUCCESS", "SKIPPED", "STATS_FAILED", "HASH_MISMATCH", "MISSING_CHAINPARAMS"};
+            std::string out = "bgres=";
+            switch (res) {
+            case SnapshotCompletionResult::SUCCESS: out += "SUCCESS"; break;
+            case SnapshotCompletionResult::SKIPPED: out += "SKIPPED"; break;
+            case SnapshotCompletionResult::HASH_MISMATCH: out += "HASH_MISMATCH"; break;
+            case SnapshotCompletionResult::MISSING_CHAINPARAMS: out += "MISSING_CHAINPARAMS"; break;
+            default: out += "OTHER"; break;
+            }
+            (void)names;
+            out += std::string(" ready=") + (ready ? "1" : "0") + " height=" + std::to_string(WITH_LOCK(cs_main, return ibd->m_chain.Height()));
+            out += " table=";
+            bool first = true;
+            for (const auto& d : cm.GetParams().m_assumeutxo_data) {
+                out += (first ? "" : ";") + std::to_string(d.height) + ":" + rawhex(d.blockhash) + ":" + vd::hex(d.hash_serialized.begin(), d.hash_serialized.end());
+                first = false;
+            }
+            // the validated chainstate's coin set, as stored
+            {
+                LOCK(cs_main);
+                ibd->ForceFlushStateToDisk();
+                std::unique_ptr<CCoinsViewCursor> cur{ibd->CoinsDB().Cursor()};
+                out += " set=";
+                first = true;
+                for (; cur->Valid(); cur->Next()) {
+                    COutPoint k; Coin c;
+                    if (!cur->GetKey(k) || !cur->GetValue(c)) return "BADCASE cursor";
+                    out += (first ? "" : ";") + rawhex(k.hash.ToUint256()) + ":" + std::to_string(k.n) + ":" + std::to_string(c.nHeight) + ":" + (c.fCoinBase ? "1" : "0") + ":" +
+                           std::to_string(c.out.nValue) + ":" + vd::hex(c.out.scriptPubKey.begin(), c.out.scriptPubKey.end());
+                    first = false;
+                }
+                if (first) out += "-";
+            }
+            return out;
+        }
         const std::string flags = w.at(1);
         auto has = [&](char c) { return flags.find(c) != std::string::npos; };
         // ---- mutate
@@ -168,6 +259,11 @@ int main()
                 else if (m[1] == '1') meta.base = uint256::ONE;
                 else if (m[1] == 'h') { LOCK(cs_main); auto* bi = cm.ActiveChain()[std::stoi(arg(0))]; if (!bi) return "BADCASE height"; meta.base = bi->GetBlockHash(); }
                 else if (m[1] == 'x') { std::fill(meta.base.begin(), meta.base.end(), (unsigned char)std::stoul(arg(0))); }
+                else if (m[1] == 't') {   // the table's block hash for that height (a header this node may not have)
+                    auto d = cm.GetParams().AssumeutxoForHeight(std::stoi(arg(0)));
+                    if (!d) return "BADCASE table height";
+                    meta.base = d->blockhash;
+                }
                 else return "BADCASE " + m;
             } else {
                 if (items.empty()) continue;
